@@ -24,9 +24,18 @@ package hcldec
 // Assumed frames: decoding a child body, collecting its labels and attaching body marks do not
 // write specification objects or the content being decoded (they do write splat evaluation
 // state, which nothing in this unit reads).
+// The conformance clause is the induction hypothesis of C08: decoding a child body against a spec
+// returns a value conforming to that spec's implied type. It is assumed here for every spec kind and
+// proved below for the kinds under contract (attr, block, default, literal; list/set/map for their
+// empty and unknown results).
 // verif:func decode
 //@ trusted
 //@ assigns nothing
+//@ ensures conforms: conformsTy(typeOf(ret0), woad(implied(spec)))
+// verif:func (Spec).decode
+//@ trusted
+//@ assigns nothing
+//@ ensures conforms: conformsTy(typeOf(ret0), woad(implied(self)))
 // verif:func labelsForBlock
 //@ trusted
 //@ assigns nothing
@@ -76,6 +85,31 @@ package hcldec
 //@ nosafety
 //@ requires content != nil
 //@ ensures conforms: !hasCustomDecoder(old(s.Type)) ==> conformsTy(typeOf(ret0), woad(old(s.Type)))
+
+// ---- single block, default, literal (unit U17d) ----
+// verif:func (*BlockSpec).impliedType
+//@ requires s.Nested != nil
+//@ pure
+//@ ensures ret == implied(s.Nested)
+// verif:func (*BlockSpec).decode
+//@ nosafety
+//@ requires s.Nested != nil && content != nil
+//@ ensures conforms: conformsTy(typeOf(ret0), woad(implied(s.Nested)))
+// verif:func (*DefaultSpec).impliedType
+//@ requires s.Primary != nil
+//@ pure
+//@ ensures ret == implied(s.Primary)
+// (documented precondition: the default has the same implied type as the primary)
+// verif:func (*DefaultSpec).decode
+//@ nosafety
+//@ requires s.Primary != nil && s.Default != nil && implied(s.Default) == implied(s.Primary)
+//@ ensures conforms: conformsTy(typeOf(ret0), woad(implied(s.Primary)))
+// verif:func (*LiteralSpec).impliedType
+//@ pure
+//@ ensures ret == typeOf(s.Value)
+// verif:func (*LiteralSpec).decode
+//@ pure
+//@ ensures typeOf(ret0) == typeOf(s.Value)
 
 // ---- block lists and sets (unit U17b) ----
 // verif:func (*BlockListSpec).impliedType
